@@ -240,6 +240,43 @@ pub fn h_trace_vec() {
     }, &owned_first(n), no_borrow);
 }
 
+/// Longer vectors (fast paths that work on chunks must not forget a remainder).
+#[no_mangle]
+pub fn h_trace_vec_long() {
+    let n = match any_below(5) {
+        0 => 7usize,
+        1 => 8,
+        2 => 9,
+        3 => 11,
+        _ => 14,
+    };
+    drive(n, |l| {
+        let mut v = Vec::new();
+        for p in 0..n {
+            v.push(take(l, p));
+        }
+        v
+    }, &owned_first(n), no_borrow);
+}
+
+/// A traced edge that its owner never drops (ManuallyDrop without a wrapper): the collector still reclaims the whole cycle,
+/// including the box of the object whose incoming pointer is never released.
+#[no_mangle]
+pub fn h_trace_manuallydrop_cycle() {
+    let l = leaf(0);
+    let h: Cc<Holder<ManuallyDrop<Cc<Leaf>>>> = Cc::new(Holder { c: ManuallyDrop::new(l.clone()) });
+    let hd: Box<dyn Trace> = Box::new(h.clone());
+    unsafe { *l.back.get() = Some(hd) };
+    drop(l);
+    drop(h);
+    collect_cycles();
+    collect_cycles();
+    check(ts().holder_drops == 1 && ts().leaf_drops[0] == 1, 121);
+    check(state::allocated_bytes().unwrap_or(1) == 0, 122); // C03: every dropped value's allocation is released
+    check(heap_live() == 0, 123);
+    cover(1);
+}
+
 #[no_mangle]
 pub fn h_trace_boxed_slice() {
     let n = any_below(4) as usize;
